@@ -38,6 +38,39 @@ func TestC06(t *testing.T) {
 		stopped := false
 		busySince := -1 // log index since which running >= limit continuously
 		infoReadAt := -1
+		// with ServerOptions.NewContext handing out a base context that has already ended, the call
+		// that gets it is answered with the context's error and never runs (clause 3 of C06); it is
+		// recognised by that answer. Everything else in its batch must still run.
+		deadCtxTags := map[string]bool{}
+		if sc.DeadCtxAt > 0 {
+			idTag := map[string]string{}
+			for _, e := range r.Log {
+				if strings.HasPrefix(e, "send ") {
+					for _, m := range c07Members(strings.SplitN(e, " ", 3)[2]) {
+						idTag[m.ID] = m.Tag
+					}
+				}
+				if strings.HasPrefix(e, "out ") {
+					var entries []struct {
+						ID    json.RawMessage
+						Error *struct{ Code int }
+					}
+					txt := strings.TrimPrefix(e, "out ")
+					if json.Unmarshal([]byte(txt), &entries) != nil {
+						entries = make([]struct {
+							ID    json.RawMessage
+							Error *struct{ Code int }
+						}, 1)
+						json.Unmarshal([]byte(txt), &entries[0])
+					}
+					for _, en := range entries {
+						if en.Error != nil && en.Error.Code == -32097 && len(deadCtxTags) == 0 {
+							deadCtxTags[idTag[string(en.ID)]] = true
+						}
+					}
+				}
+			}
+		}
 		for i, e := range r.Log {
 			f := strings.Fields(e)
 			switch f[0] {
@@ -115,7 +148,7 @@ func TestC06(t *testing.T) {
 				fmt.Sscanf(f[1], "held=%d", &held)
 				if held < sc.Concurrency && !stopped && len(cancelledIDs) == 0 {
 					for a := range arrived {
-						if !started[a] && !c03Blocked(r.Log[:i], a) {
+						if !started[a] && !c03Blocked(r.Log[:i], a) && !deadCtxTags[a] {
 							res.Violatef("not work-conserving: a request waits although a slot is free", in, "%d held, limit %d, %s not started; log: %s", held, sc.Concurrency, a, shortLog(r.Log))
 						}
 					}
@@ -123,7 +156,7 @@ func TestC06(t *testing.T) {
 			case "quiescent":
 				if !stopped && len(cancelledIDs) == 0 {
 					for a := range arrived {
-						if !finished[a] {
+						if !finished[a] && !deadCtxTags[a] {
 							res.Violatef("not work-conserving: a request never ran although nothing is executing", in, "%s never finished; log: %s", a, shortLog(r.Log))
 						}
 					}
@@ -182,6 +215,17 @@ func TestC06(t *testing.T) {
 		for _, sc := range corpus {
 			for j := 0; j < pick(30, 300); j++ {
 				runOne(sc, seededPick(rng), true)
+			}
+		}
+		// a batch one of whose calls gets a base context that has already ended: that call is answered
+		// with the context's error, the others are dispatched and must start while slots are free
+		for _, sc := range []*srvScenario{
+			{Concurrency: 4, DeadCtxAt: 1, Ops: []envOp{{Kind: "send", Arg: reqBatch(reqCall(1, "c1", "ok"), reqCall(2, "c2", "ok"), reqCall(3, "c3", "ok"))}, {Kind: "send", Arg: reqCall(4, "c4", "ok")}}},
+			{Concurrency: 2, DeadCtxAt: 2, Ops: []envOp{{Kind: "send", Arg: reqBatch(reqCall(1, "Hc1", "ok"), reqCall(2, "c2", "ok"), reqNote("n3", "ok"), reqCall(4, "c4", "err"))}, {Kind: "send", Arg: reqCall(5, "c5", "ok")}}},
+			{Concurrency: 3, DeadCtxAt: 3, Ops: []envOp{{Kind: "send", Arg: reqCall(1, "c1", "ok")}, {Kind: "send", Arg: reqBatch(reqCall(2, "c2", "ok"), reqCall(3, "c3", "ok"), reqCall(4, "c4", "ok"), reqCall(5, "c5", "ok"))}}},
+		} {
+			for j := 0; j < pick(30, 300); j++ {
+				runOne(sc, seededPick(rng), false)
 			}
 		}
 		// cancelled waiter: c2 waits behind held c1; CancelRequest("2"); c2 must be answered -32097 without running
